@@ -408,7 +408,7 @@ pub fn run(ctx: &Ctx) -> Verdict {
         "types outside the accepted families are not generated; rustc rejections are counted (> 5% = inconclusive)".into(),
     ];
     v.subs.push(crate::replay_corpus(ctx, &|sub, case| replay(sub, case)));
-    let n = ctx.tier.pick(800, 16_000) as usize;
+    let n = ctx.tier.pick(1600, 32_000) as usize;
     let batches = n.div_ceil(1600);
     for b in 0..batches {
         let sub = if batches == 1 { "types".to_string() } else { format!("types-{b}") };
